@@ -521,8 +521,8 @@ func buildInstances(ci *chainIndex) []*instance {
 			return pl[i].Name < pl[j].Name
 		})
 		var pe []elem
-		for _, p := range pl {
-			pe = append(pe, strict(fmt.Sprintf("%s|%d|%s|%s|%s|%s|%d|%d", p.Name, p.PillarType, p.StakeAddress, p.BlockProducingAddress, p.RewardWithdrawAddress, w(p.Name), p.GiveBlockRewardPercentage, p.GiveDelegateRewardPercentage)))
+		for rank, p := range pl { // the rank of a pillar is its position in the whole weight-ordered list, on whatever page it is served
+			pe = append(pe, strict(fmt.Sprintf("%s|%d|%s|%s|%s|%s|%d|%d|rank%d", p.Name, p.PillarType, p.StakeAddress, p.BlockProducingAddress, p.RewardWithdrawAddress, w(p.Name), p.GiveBlockRewardPercentage, p.GiveDelegateRewardPercentage, rank)))
 		}
 		add(&instance{Method: "embedded.pillar.getAll", Limit: api.RpcMaxPageSize, Truth: pe, Total: int64(len(pe)), WrapKey: "GetRange:index*count-uint32-wrap",
 			Call: func(pi, ps uint64) (*pagedResult, error) {
@@ -532,7 +532,7 @@ func buildInstances(ci *chainIndex) []*instance {
 				}
 				r := &pagedResult{Count: int64(l.Count)}
 				for _, p := range l.List {
-					r.List = append(r.List, strict(fmt.Sprintf("%s|%d|%s|%s|%s|%s|%d|%d", p.Name, p.Type, p.StakeAddress, p.BlockProducingAddress, p.RewardWithdrawAddress, bigStr(p.Weight), p.GiveMomentumRewardPercentage, p.GiveDelegateRewardPercentage)))
+					r.List = append(r.List, strict(fmt.Sprintf("%s|%d|%s|%s|%s|%s|%d|%d|rank%d", p.Name, p.Type, p.StakeAddress, p.BlockProducingAddress, p.RewardWithdrawAddress, bigStr(p.Weight), p.GiveMomentumRewardPercentage, p.GiveDelegateRewardPercentage, p.Rank)))
 				}
 				return r, err
 			}})
